@@ -308,25 +308,25 @@ def op_adcLike (neg : Bool) : Ex Unit := do
 
 /-! ### read-modify-write helpers -/
 
-def rmw (f8 : U8 → Regs → U8 × Bool) (f16 : U16 → Regs → U16 × Bool) (setC : Bool) : Ex Unit := do
+def rmw (f8 : U8 → Bool → U8 × Bool) (f16 : U16 → Bool → U16 × Bool) (setC : Bool) : Ex Unit := do
   let c ← get
   if c.Mode == .Accumulator then
     if c.M then
-      let r := f8 c.RAl c
+      let r := f8 c.RAl c.C
       modify fun c => setZN8 r.1 { c with RAl := r.1, C := if setC then r.2 else c.C }
     else
-      let r := f16 c.RA c
+      let r := f16 c.RA c.C
       modify fun c => setZN16 r.1 { c with RA := r.1, C := if setC then r.2 else c.C }
   else
     if c.M then
       let v ← cmdRead
-      let r := f8 v c
+      let r := f8 v c.C
       modify fun c => { c with C := if setC then r.2 else c.C }
       cmdWrite r.1
       modify (setZN8 r.1)
     else
       let v ← cmdRead16
-      let r := f16 v c
+      let r := f16 v c.C
       modify fun c => { c with C := if setC then r.2 else c.C }
       cmdWrite16 r.1
       modify (setZN16 r.1)
@@ -525,8 +525,8 @@ def runP : Proc → Ex Unit
   | .eor => logic (· ^^^ ·) (· ^^^ ·)
   | .asl => rmw (fun v _ => (v <<< 1, v.getLsbD 7)) (fun v _ => (v <<< 1, v.getLsbD 15)) true
   | .lsr => rmw (fun v _ => (v >>> 1, v.getLsbD 0)) (fun v _ => (v >>> 1, v.getLsbD 0)) true
-  | .rol => rmw (fun v c => ((v <<< 1) ||| bit c.C, v.getLsbD 7)) (fun v c => ((v <<< 1) ||| zx (bit c.C), v.getLsbD 15)) true
-  | .ror => rmw (fun v c => ((v >>> 1) ||| (bit c.C <<< 7), v.getLsbD 0)) (fun v c => ((v >>> 1) ||| (zx (bit c.C) <<< 15), v.getLsbD 0)) true
+  | .rol => rmw (fun v ci => ((v <<< 1) ||| bit ci, v.getLsbD 7)) (fun v ci => ((v <<< 1) ||| zx (bit ci), v.getLsbD 15)) true
+  | .ror => rmw (fun v ci => ((v >>> 1) ||| (bit ci <<< 7), v.getLsbD 0)) (fun v ci => ((v >>> 1) ||| (zx (bit ci) <<< 15), v.getLsbD 0)) true
   | .inc => rmw (fun v _ => (v + 1, false)) (fun v _ => (v + 1, false)) false
   | .dec => rmw (fun v _ => (v - 1, false)) (fun v _ => (v - 1, false)) false
   | .bcc => branchIf (fun c => !c.C)
@@ -853,22 +853,26 @@ def adjOf (v : Variant) (opb : U8) : CycAdj :=
   let t := cycTables v
   ⟨t.1.getD opb.toNat 0, t.2.1.getD opb.toNat 0, t.2.2.1.getD opb.toNat 0, t.2.2.2.getD opb.toNat 0⟩
 
-/-- the table-driven cycle adjustments, and the hand-over of the decoded operand location (`StepInfo`) -/
+/-- the table-driven cycle adjustments (byte arithmetic, as in Go) -/
+def adjCycles (t : CycAdj) (pageCrossed : Bool) (c : Regs) : U8 :=
+  let cy := c.Cycles
+  let cy := if c.M then cy - BitVec.ofNat 8 t.decM else cy
+  let cy := if c.X then
+      let cy := cy - BitVec.ofNat 8 t.decX
+      if pageCrossed then cy + BitVec.ofNat 8 t.incPage else cy
+    else cy
+  if c.RD &&& 0x00FF != 0 then cy + BitVec.ofNat 8 t.incDL else cy
+
+/-- cycle adjustment and the hand-over of the decoded operand location (`StepInfo`) -/
 def adjustRegs (row : RowSem) (t : CycAdj) (pageCrossed : Bool) (ea : Nat) (addr : U16) (c : Regs) : Regs :=
-  let c := if c.M then { c with Cycles := c.Cycles - BitVec.ofNat 8 t.decM } else c
-  let c := if c.X then
-      let c := { c with Cycles := c.Cycles - BitVec.ofNat 8 t.decX }
-      if pageCrossed then { c with Cycles := c.Cycles + BitVec.ofNat 8 t.incPage } else c
-    else c
-  let c := if c.RD &&& 0x00FF != 0 then { c with Cycles := c.Cycles + BitVec.ofNat 8 t.incDL } else c
-  { c with EA := ea % 16777216, Addr := addr, Mode := row.mode }
+  { c with Cycles := adjCycles t pageCrossed c, EA := ea % 16777216, Addr := addr, Mode := row.mode }
 
 /-- the end of `Step`: account the cycles, advance the PC -/
 def finishRegs (c : Regs) : Regs :=
   { c with AllCycles := c.AllCycles + c.Cycles.setWidth 64, PC := c.PC + c.stepPC }
 
-/-- `Step()` with the interrupt latch idle, over abstract decode tables -/
-def stepWith (sem : U8 → RowSem) (adj : U8 → CycAdj) : Ex Unit := do
+/-- the first half of `Step()`: fetch, table lookup, addressing switch, cycle adjustment, `StepInfo` hand-over -/
+def decodeStage (sem : U8 → RowSem) (adj : U8 → CycAdj) : Ex RowSem := do
   modify fun c => { c with PPC := c.PC, PRK := c.RK }
   let c ← get
   let opb ← nRead c.RK c.PC
@@ -877,6 +881,11 @@ def stepWith (sem : U8 → RowSem) (adj : U8 → CycAdj) : Ex Unit := do
   modify fun c => { c with stepPC := BitVec.ofNat 16 row.size, Cycles := BitVec.ofNat 8 row.cycles }
   let (addr, ea, pageCrossed) ← addressing row.mode
   modify (adjustRegs row t pageCrossed ea addr)
+  pure row
+
+/-- `Step()` with the interrupt latch idle, over abstract decode tables -/
+def stepWith (sem : U8 → RowSem) (adj : U8 → CycAdj) : Ex Unit := do
+  let row ← decodeStage sem adj
   runP row.proc
   modify finishRegs
 
